@@ -165,7 +165,7 @@ def run(ctx: Ctx):
     rng = ctx.rng("larch")
     names = ["mod", "m", "dom", "mo", "mod.x", "o"]
     seqs = []
-    for _ in range(4000 if quick else 60000):
+    for _ in range(ctx.size(4000, 60000)):
         n = rng.randint(2, 10)
         seq = []
         for _ in range(n):
